@@ -15,7 +15,7 @@ namespace {
 
 enum HK { H_SUB_INV = 1, H_SUB_RET, H_EXEC, H_CANCEL, H_RUN_BEGIN, H_RUN_END, H_QUIESCE, H_DESTROY_BEGIN, H_DESTROY_END, H_EXIT_POSTED };
 enum Entry { E_RUNINLOOP = 0, E_RUNNEXT = 1, E_RUN = 2 };
-enum Cell { C_IN_JOIN_LOOP = 1, C_PENDING_EXPECTED = 2, C_RUNID_BASE = 16 };   // cells 16.. hold RunIds (low 32 bits are enough here)
+enum Cell { C_IN_JOIN_LOOP = 1, C_PENDING_EXPECTED = 2, C_LOOP_TID = 3, C_RUNID_BASE = 16 };   // cells 16.. hold RunIds (low 32 bits are enough here)
 
 // op: sub <actor> <phase> <child_entry> <grandchild_entry> <cancel_target> <yields_after> <sleep_after_ms>
 //   actor  : submitter thread index
@@ -111,6 +111,7 @@ void submitter_main(long actor) {
 }
 
 void loop_runner() {
+  sim::cell_set(C_LOOP_TID, sim::self());
   sim::hist(H_RUN_BEGIN);
   W.loop->runLoop(Loop::Mode::kForever);
   sim::hist(H_RUN_END);
@@ -122,6 +123,17 @@ struct TI {
   bool accepted = false;
   bool cancelled = false;
 };
+
+// Wait until the loop thread is parked in its wait call with nothing ready for it (however long stalls and late wake-ups take):
+// whatever is still pending then can only be run by another wake-up, which nobody is going to send.
+static void wait_loop_idle() {
+  for (int i = 0; i < 2000; ++i) {
+    sim::sleep_ns(50 * 1000000);
+    long tid = sim::cell_get(C_LOOP_TID);
+    if (tid >= 0 && sim::thread_idle((int)tid)) return;
+  }
+  sim::violation("C01/loop-never-idle", "the loop thread did not come to rest within 100 s of virtual time after the last submission");
+}
 
 static void check_all_executed(const char *when) {
   // every accepted, uncancelled task submitted so far must have run
@@ -181,7 +193,7 @@ void execute(const sim::Plan &plan) {
   spawn_phase(1);
   join_phase(0);
   join_phase(1);
-  sim::sleep_ns(50 * 1000000);
+  wait_loop_idle();
   check_all_executed("first run");
   Loop *lp = W.loop;
   sim::hist(H_EXIT_POSTED);
@@ -195,7 +207,7 @@ void execute(const sim::Plan &plan) {
   join_phase(3);
   if (plan.get("rerun")) {
     std::thread l2(loop_runner);
-    sim::sleep_ns(50 * 1000000);
+    wait_loop_idle();
     check_all_executed("second run");
     sim::hist(H_EXIT_POSTED);
     lp->runInLoop([lp] { lp->exitLoop(); }, "c01.exit2");
